@@ -927,7 +927,7 @@ class SimpleShape(DefinedShape):
         if areaA > 0:
             return True
         # Both unbounded: the hole of self must lie in the hole of other
-        return not other.contains_jordan(jordanb, False)
+        return jordanb in ~other
 
 
 class ConnectedShape(DefinedShape):
